@@ -69,6 +69,11 @@ REGIONS = {
     'renege_jockey': dict(renege=1.0, routers=1.0, jockey=True, block=0.6),
     'preempt_deep': dict(prio=1.0, preempt=1.0, noblock=True, deep=True),
     'jsq_preempt': dict(routers=1.0, jsq=True, prio=1.0, preempt=1.0, noblock=True, multiclass=True),
+    'sched_split': dict(sched=1.0, noblock=True, split=True),      # the run is made in several calls (pauses inside services / overtime)
+    'core_split': dict(split=True),
+    'spf': dict(spf=1.0),                                          # server priority functions (which free server is taken)
+    'spf_sched': dict(spf=1.0, sched=1.0, noblock=True),
+    'spf_block': dict(spf=1.0, block=0.8),
     'all': dict(prio=0.4, preempt=0.3, sched=0.3, schedpre=0.3, slotted=0.15, renege=0.3, dyn=0.2, routers=0.3,
                 block=0.4),
 }
@@ -250,4 +255,13 @@ def gen(region, seed, size='quick'):
         T = rng.choice([40, 80, 120, 200] if not big else [120, 200, 400, 800])
         cfg['run'] = ['time', T]
         cfg['max_frames'] = 600 if not big else 3000
+    if f.get('split') and cfg['run'][0] == 'time':
+        T = cfg['run'][1]
+        cuts = sorted(set(rng.choice([x for x in (3, 5, 7, 9, 11, 14, 18, 22, 27, 33, 45, 60) if x < T]) for _ in range(rng.randint(1, 4))))
+        cfg['run'] = [['time', c] for c in cuts] + [['time', T]]
+    if 'spf' in f:          # drawn last so that the other regions' configurations are unchanged
+        cfg['spf'] = [(rng.choice(['hi', 'idle', 'cls', 'hi', None]) if (isinstance(servers[j], dict) or (isinstance(servers[j], int) and servers[j] >= 1)) else None)
+                      for j in range(n)]
+        if all(x is None for x in cfg['spf']):
+            cfg['spf'] = None
     return cfg
